@@ -192,17 +192,24 @@ def run_kani(filters, jobs, harness_timeout_s, mem_gb, exact=False, playback=Fal
     os.makedirs(WORK, exist_ok=True)
     cmd = kani_cmd(filters, jobs, harness_timeout_s, exact=exact, playback=playback)
     t0 = time.time()
+    import signal
+    proc = subprocess.Popen(cmd, cwd=REPO, env=base_env(), stdout=subprocess.PIPE, stderr=subprocess.STDOUT,
+                            text=True, errors="replace", preexec_fn=limit_mem(mem_gb))
     try:
-        p = subprocess.run(cmd, cwd=REPO, env=base_env(), stdout=subprocess.PIPE, stderr=subprocess.STDOUT,
-                           text=True, errors="replace", preexec_fn=limit_mem(mem_gb), timeout=overall_timeout)
-        out = p.stdout
-        rc = p.returncode
-    except subprocess.TimeoutExpired as e:
-        out = (e.stdout or b"")
-        if isinstance(out, bytes):
-            out = out.decode("utf-8", "replace")
+        out, _ = proc.communicate(timeout=overall_timeout)
+        rc = proc.returncode
+    except subprocess.TimeoutExpired:
+        try:
+            os.killpg(proc.pid, signal.SIGKILL)
+        except ProcessLookupError:
+            pass
+        out, _ = proc.communicate()
         rc = -9
-        subprocess.run(["pkill", "-x", "cbmc"], check=False)
+    # a harness timeout kills cbmc but not an SMT solver child (z3/cvc5): reap the whole session
+    try:
+        os.killpg(proc.pid, signal.SIGKILL)
+    except (ProcessLookupError, PermissionError):
+        pass
     wall = time.time() - t0
     if logname:
         os.makedirs(os.path.join(WORK, "logs"), exist_ok=True)
